@@ -25,6 +25,12 @@
   `generate_close_to_exact`: the trimming removes at most `θ · lossCount ns` of the mass and the
   returned (renormalised) distribution is within that distance, event by event, of the exact product law
   (`lossCount ns ≤ 9 · #modes · 5^(Σ nᵢ)` counts the places where an entry `≤ θ` can be dropped).
+  Parameter-dependent version (`trimmed_mass_ge_width`, `generate_close_to_exact_width`): the base 5 becomes
+  `width P`, the number of one-photon outcomes the source really has (2 for the HOM-only source).
+
+  Wave 6: `share_tag_iff_common` / `share_tag_prob` / `simplify_share_tag_prob` / `share_tag_prob_returned` (the
+  property's sentence "two photons share a tag with probability I" for the event "share ONE tag", simplified or
+  not, exact and on the returned distribution), `anonymize_idempotent` / `simplify_idempotent`.
 
   Sampler.  `generate_samples` is modelled as a deterministic function of the draws of `random.choices` /
   `random.shuffle` (`Model/C06Samp.lean`); the theorems of the section "the direct sample generator" are about the
@@ -49,6 +55,11 @@ import PercevalModel.Lemmas.C06PlaceK
 import PercevalModel.Lemmas.C06Route
 import PercevalModel.Lemmas.C06Rename
 import PercevalModel.Lemmas.C06Rows
+import PercevalModel.Lemmas.C06Share
+import PercevalModel.Lemmas.C06AnonIdem
+import PercevalModel.Lemmas.C06AnonDistIdem
+import PercevalModel.Lemmas.C06LossW
+import PercevalModel.Lemmas.C06NoTrim
 
 namespace PM.C06
 
@@ -730,6 +741,92 @@ theorem generate_photon_number_close {P : Params} (hP : P.WF) (thr : ℚ) {ns : 
     (fun s => by split <;> norm_num)).1
 
 
+/-! ### the tag counter after `_generate_samples_no_filter` (model only) -/
+
+/-- The tag counter `_generate_samples_no_filter` leaves behind, as the model has it (`nfTag`; the harness does
+NOT compare this value with the code, so this is a statement about the model only): for an imperfect,
+partially distinguishable source it is the value `generate_distribution` leaves for the same input (`genTag`:
+both allocate one block of tags per requested photon, so the no-filter sampler and the distribution builder
+name their photons alike — the reason `sampler_no_filter_law` holds with the tags and not only up to
+renaming); for a source without annotations one call of `_generate_one_photon_distribution` advanced it
+(`nextTag`); it never decreases, so tags handed out afterwards are new. -/
+theorem sampler_tag_counter_model (P : Params) (ns : List ℕ) (t : ℕ) (h : isPerfect P = false) :
+    (partDist P = true → nfTag P ns t = genTag P ns t) ∧
+    (partDist P = false → nfTag P ns t = nextTag P t) ∧ t ≤ nfTag P ns t := by
+  refine ⟨fun hp => ?_, fun hp => ?_, ?_⟩
+  · simp only [nfTag, hp, if_true]; exact genTagPd_eq_genTag h ns t
+  · simp [nfTag, hp]
+  · by_cases hp : partDist P = true
+    · simp only [nfTag, hp, if_true]; rw [genTagPd_eq_genTag h]; exact le_genTag P ns t
+    · simp only [nfTag, hp, Bool.false_eq_true, if_false]; exact le_nextTag P t
+
+/-! ### a parameter-dependent trimming bound -/
+
+/-- The number of outcomes of one requested photon, `width P` = the number of entries of
+`_generate_one_photon_distribution` that `Source._add` keeps (positive probability), depends on the
+parameters only — not on the tag counter — and on the pattern of imperfections: between 1 and 5 for every
+well-formed source, at most 3 when there is no multi-photon emission (`g2 = 0`) or no annotation (the source
+is not partially distinguishable), at most 2 for a source that loses nothing and emits exactly one photon
+per request (indistinguishability the only possible defect). -/
+theorem width_of_pattern (P : Params) :
+    (∀ t, (onePhoton P t).length = width P) ∧ width P ≤ 5 ∧ (P.WF → 1 ≤ width P) ∧
+    ((P.g2 = 0 ∨ partDist P = false) → width P ≤ 3) ∧
+    (P.beta = 1 → P.g2 = 0 → P.eta = 1 → width P ≤ 2) :=
+  ⟨length_onePhoton P, width_le_five P, one_le_width, width_le_three, width_le_two⟩
+
+/-- Sharper, parameter-dependent trimming bound: at any threshold `θ ≥ 0` the product keeps, before
+normalisation, at least `1 − θ · lossCountW (width P) ns` of the mass, `lossCountW c ns` the count of the
+places where an entry `≤ θ` can be dropped when a requested photon has `c` outcomes (`lossCountW 5 = lossCount`,
+the worst case of `trimmed_mass_ge`).  It never exceeds the worst-case count, and for `c = width P ≥ 2` it is
+at most `9 · #modes · c^(Σ nᵢ)` — the base of the exponential is the number of outcomes the source really has
+(2, 3, … instead of 5). -/
+theorem trimmed_mass_ge_width {P : Params} (hP : P.WF) (θ : ℚ) (hθ : 0 ≤ θ) {ns : List ℕ} (hne : ns ≠ [])
+    (t : ℕ) :
+    1 - θ * (lossCountW (width P) ns : ℚ) ≤ mass (generateRaw P θ ns t) ∧
+    lossCountW (width P) ns ≤ lossCount ns ∧
+    (2 ≤ width P → lossCountW (width P) ns ≤ 9 * (ns.length * width P ^ ns.sum)) ∧
+    (∀ c, width P ≤ c → lossCountW (width P) ns ≤ lossCountW c ns) :=
+  ⟨mass_generateRaw_geW hP θ hθ hne t, lossCountW_width_le P ns, fun h => lossCountW_le h ns,
+    fun _ h => lossCountW_mono h ns⟩
+
+/-- … and the distribution `generate_distribution` RETURNS (any threshold, renormalised) gives every event —
+every test function with values in `[0, 1]` — a probability within `θ · lossCountW (width P) ns` of the exact
+product law, `θ = max(prob_threshold, 1e-16)` (no smallness assumption). -/
+theorem generate_close_to_exact_width {P : Params} (hP : P.WF) (thr : ℚ) {ns : List ℕ} (hne : ns ≠ [])
+    (t : ℕ) (g : State → ℚ) (hg0 : ∀ s, 0 ≤ g s) (hg1 : ∀ s, g s ≤ 1) :
+    |E g (generate P thr ns t) - E g (generateAt P 0 ns t)| ≤
+      max thr minP * (lossCountW (width P) ns : ℚ) := by
+  have hθ : (0 : ℚ) ≤ max thr minP := le_max_of_le_right (by norm_num [minP])
+  exact generateAt_close_of hP _ hne t _ (mass_generateRaw_geW hP _ hθ hne t) g hg0 hg1
+
+/-- For the source whose only imperfection is the indistinguishability (the HOM setting of the property)
+the base of the exponential is 2: the returned distribution is within `θ · 9 · #modes · 2^N` of the exact
+law (at the default threshold informative up to about 45 photons instead of 20). -/
+theorem generate_close_to_exact_hom_only {P : Params} (hP : P.WF) (hb : P.beta = 1) (hg : P.g2 = 0)
+    (he : P.eta = 1) (thr : ℚ) {ns : List ℕ} (hne : ns ≠ []) (t : ℕ) (g : State → ℚ)
+    (hg0 : ∀ s, 0 ≤ g s) (hg1 : ∀ s, g s ≤ 1) :
+    |E g (generate P thr ns t) - E g (generateAt P 0 ns t)| ≤
+      max thr minP * ((9 * (ns.length * 2 ^ ns.sum) : ℕ) : ℚ) := by
+  have hθ : (0 : ℚ) ≤ max thr minP := le_max_of_le_right (by norm_num [minP])
+  refine le_trans (generate_close_to_exact_width hP thr hne t g hg0 hg1)
+    (mul_le_mul_of_nonneg_left (Nat.cast_le.mpr ?_) hθ)
+  exact le_trans (lossCountW_mono (width_le_two hb hg he) ns) (lossCountW_le (le_refl 2) ns)
+
+
+/-- A weight-dependent statement, exact instead of a bound: when the effective threshold
+`max(prob_threshold, 1e-16)` is below `wmin P ^ N` — `wmin P` the smallest probability of an outcome of one
+requested photon (positive, at most 1, the same for every value of the tag counter), `N = Σ nᵢ`, i.e. below the
+smallest weight any branch of the two depth-first products and any accumulated entry can have — NOTHING is
+trimmed: `generate_distribution` returns, entry by entry and in the same order, the exact untrimmed product
+law, so every theorem stated for `generateAt P 0` holds for the returned list itself.  (No well-formedness
+hypothesis; e.g. outcomes of probability `≥ 1e-3` and up to 5 requested photons at the default threshold.) -/
+theorem no_trimming_below_min_weight (P : Params) (thr : ℚ) (ns : List ℕ) (t : ℕ)
+    (h : max thr minP < wmin P ^ ns.sum) :
+    generate P thr ns t = generateAt P 0 ns t ∧ 0 < wmin P ∧ wmin P ≤ 1 ∧
+    ∀ t', ∀ e ∈ onePhoton P t', wmin P ≤ e.2 :=
+  ⟨generateAt_eq_of_small P _ ns t h, wmin_pos P, wmin_le_one P, wmin_le P⟩
+
+
 /-! ### the direct sample generator as a function of its random draws (`Model/C06Samp.lean`) -/
 
 /-- What `generate_samples` does before any draw: a perfect source returns the input (no draw at all); no filter →
@@ -807,7 +904,7 @@ of the event index, of the booleans of `_generate_distinguishability` and of the
 * for all weights `a`, `b` of the two tag classes the class generating function of one sample is the one of
   `generate_distribution` conditioned on `≥ f` photons, hence, probability by probability, the joint law of (photons
   with the common tag, photons with a fresh tag) — in particular of the photon number — is that conditional law.
-Full statement wanted (NOT proved): the law of the sample on states up to renaming of fresh tags, i.e. the joint law
+Full statement wanted (not proved HERE; proved since, under a uniform shuffle, as `sampler_filtered_law` below): the law of the sample on states up to renaming of fresh tags, i.e. the joint law
 of the per-mode pairs (common, fresh), equals the conditional law.  Missing: that a uniformly shuffled list with
 multinomial category counts is a sequence of independent categorical draws (the placement of the photons into the
 modes).  The placement is compared with the code exactly on recorded and on exhaustively forced draws by the
@@ -1033,7 +1130,9 @@ two requested photons share a tag with probability `I` also in the simplified mi
 `massP allCommon (generateAt P 0 ns t) = I`; that on the two-photon states of that mixture `oneTag` and
 `allCommon` are the same event (fresh tags are pairwise different by `tags_fresh`, and a partially
 distinguishable source emits no unannotated photon) is NOT proved in Lean; the harness evaluates the law of
-the tag-equality pattern on the real simplified output against the closed form. -/
+the tag-equality pattern on the real simplified output against the closed form.
+(Wave 6: that link IS proved now — `share_tag_iff_common`, and the full statement is `simplify_share_tag_prob`
+below; this theorem is kept as the threshold-independent half of it.) -/
 theorem simplify_share_tag_prob_partial (P : Params) (b : Bool) (θ : ℚ) (ns : List ℕ) (t : ℕ) :
     massP oneTag (generateSAt P b θ ns t) = massP oneTag (generateAt P θ ns t) :=
   E_generateSAt_of_invariant P b θ ns t (fun a => if oneTag a then 1 else 0)
@@ -1056,6 +1155,123 @@ example : anonDist [([[some 0], [some 3]], 1 / 4), ([[some 1], [some 0]], 1 / 4)
 example : partDist { beta := 1, g2 := 0, q := 1, eta := 1, ind := 1 / 4, r := 1 / 2, dm := true } = true ∧
     partDist { beta := 1 / 2, g2 := 0, q := 1, eta := 1, ind := 1, r := 1, dm := true } = false := by
   constructor <;> norm_num [partDist]
+
+/-! ### "share a tag" = "carry the common tag" on the states of the mixture -/
+
+/-- The link between `oneTag` (all photons of the state carry one and the same tag — the event the property
+speaks about, and the one the simplification preserves) and `allCommon` (all carry the common tag `_:0` — the
+event the generating functions give the probability of): in EVERY state of the mixture `generate_distribution`
+returns — every parameter tuple, every threshold, every input, every value of the tag counter — all photons
+share one tag iff all of them carry the common tag or the state holds at most one photon.  Two facts about
+the support go into it: a non-common tag occurs once (`tags_fresh`), and a mixture never mixes the tag `_:0`
+with unannotated photons (all photons are annotated when the source is partially distinguishable, none is
+otherwise; `generateAt_kind`). -/
+theorem share_tag_iff_common (P : Params) (θ : ℚ) (ns : List ℕ) (t : ℕ) :
+    ∀ x ∈ generateAt P θ ns t, oneTag x.1 = (allCommon x.1 || decide (photons x.1 ≤ 1)) := fun x hx =>
+  oneTag_eq_of_kind x.1 (partDist P) (generateAt_kind P θ ns t x hx) (tags_fresh P θ ns t x hx)
+
+/-- A source that loses nothing and emits exactly one photon per request (`β = 1, g2 = 0, η = 1`; the
+indistinguishability is arbitrary) delivers exactly the requested number of photons in EVERY state of the
+mixture, at every threshold (a statement about the support, not only about the probabilities). -/
+theorem hom_only_photons {P : Params} (hb : P.beta = 1) (hg : P.g2 = 0) (he : P.eta = 1) (θ : ℚ)
+    (ns : List ℕ) (t : ℕ) : ∀ x ∈ generateAt P θ ns t, photons x.1 = ns.sum := fun x hx => by
+  rw [photons_eq_length_flatten]; exact generateAt_len hb hg he θ ns t x hx
+
+/-- The property's sentence as it is written: for a source whose only imperfection is the
+indistinguishability, `N ≥ 2` requested photons (in one mode or spread over several) all share ONE TAG —
+whatever tag — with probability `√I ^ N`; two requested photons share a tag with probability `I`.
+(`tag_share_prob` is the same for the event "all carry the common tag"; the two events coincide on every
+state of the mixture by `share_tag_iff_common` and `hom_only_photons`.) -/
+theorem share_tag_prob {P : Params} (hP : P.WF) (hb : P.beta = 1) (hg : P.g2 = 0) (he : P.eta = 1)
+    {ns : List ℕ} (hne : ns ≠ []) (t : ℕ) (h2 : 2 ≤ ns.sum) :
+    massP oneTag (generateAt P 0 ns t) = P.r ^ ns.sum ∧
+    (ns.sum = 2 → massP oneTag (generateAt P 0 ns t) = P.ind) := by
+  have hEq : massP oneTag (generateAt P 0 ns t) = massP allCommon (generateAt P 0 ns t) := by
+    unfold massP
+    apply E_congr_mem
+    intro e hmem
+    have hd : decide (ns.sum ≤ 1) = false := decide_eq_false (by omega)
+    rw [share_tag_iff_common P 0 ns t e hmem, hom_only_photons hb hg he 0 ns t e hmem, hd, Bool.or_false]
+  rw [hEq]
+  exact tag_share_prob hP hb hg he hne t
+
+/-- The same in the SIMPLIFIED mixture (`simplify_distribution = True`, flag `b` arbitrary): after
+`anonymize_annotations` the common tag is no longer recognisable (the first photon is always renamed `_:0`),
+but "all photons share one tag" is, and it keeps its probability `√I ^ N` (`= I` for two photons).  This is
+the full statement `simplify_share_tag_prob_partial` was partial for. -/
+theorem simplify_share_tag_prob {P : Params} (hP : P.WF) (hb : P.beta = 1) (hg : P.g2 = 0) (he : P.eta = 1)
+    (b : Bool) {ns : List ℕ} (hne : ns ≠ []) (t : ℕ) (h2 : 2 ≤ ns.sum) :
+    massP oneTag (generateSAt P b 0 ns t) = P.r ^ ns.sum ∧
+    (ns.sum = 2 → massP oneTag (generateSAt P b 0 ns t) = P.ind) := by
+  rw [simplify_share_tag_prob_partial]
+  exact share_tag_prob hP hb hg he hne t h2
+
+/-- … and on the distribution `generate_distribution` RETURNS — any `prob_threshold`, trimmed at
+`θ = max(prob_threshold, 1e-16)` and renormalised, simplified or not (`generateS P b thr`): `N ≥ 2` requested
+photons of the source whose only imperfection is the indistinguishability all share one tag with a
+probability within `θ · 9 · #modes · 2^N` of `√I ^ N`; two requested photons share a tag with probability `I`
+up to `36 · #modes · θ` (`7.2e-15` for two modes at the default threshold). -/
+theorem share_tag_prob_returned {P : Params} (hP : P.WF) (hb : P.beta = 1) (hg : P.g2 = 0) (he : P.eta = 1)
+    (b : Bool) (thr : ℚ) {ns : List ℕ} (hne : ns ≠ []) (t : ℕ) (h2 : 2 ≤ ns.sum) :
+    |massP oneTag (generateS P b thr ns t) - P.r ^ ns.sum| ≤
+      max thr minP * ((9 * (ns.length * 2 ^ ns.sum) : ℕ) : ℚ) ∧
+    (ns.sum = 2 → |massP oneTag (generateS P b thr ns t) - P.ind| ≤
+      max thr minP * ((36 * ns.length : ℕ) : ℚ)) := by
+  have h1 : |massP oneTag (generateS P b thr ns t) - P.r ^ ns.sum| ≤
+      max thr minP * ((9 * (ns.length * 2 ^ ns.sum) : ℕ) : ℚ) := by
+    rw [(simplify_flag P b thr ns t).1, simplify_share_tag_prob_partial,
+      ← (share_tag_prob hP hb hg he hne t h2).1]
+    exact generate_close_to_exact_hom_only hP hb hg he thr hne t _ (fun s => by split <;> norm_num)
+      (fun s => by split <;> norm_num)
+  refine ⟨h1, fun h => ?_⟩
+  have e1 : P.r ^ ns.sum = P.ind := by rw [h, ← hP.r_sq]; ring
+  have e2 : 9 * (ns.length * 2 ^ ns.sum) = 36 * ns.length := by rw [h]; ring
+  rw [e1, e2] at h1
+  exact h1
+
+-- non-vacuity of `share_tag_prob` / `simplify_share_tag_prob` / `hom_only_photons`: a well-formed source
+-- with `β = 1, g2 = 0, η = 1` and `I = 1/4`, two photons requested in two modes
+example : ({ beta := 1, g2 := 0, q := 1, eta := 1, ind := 1 / 4, r := 1 / 2, dm := true } : Params).WF ∧
+    ([1, 1] : List ℕ) ≠ [] ∧ 2 ≤ ([1, 1] : List ℕ).sum :=
+  ⟨by constructor <;> norm_num, by simp, by simp⟩
+-- `share_tag_iff_common`: the clause `photons ≤ 1` is needed (one photon with a fresh tag shares its tag with
+-- itself but does not carry the common one), and both events do occur
+example : oneTag [[some 3]] = true ∧ allCommon [[some 3]] = false ∧
+    oneTag [[some 0], [some 0]] = true ∧ allCommon [[some 0], [some 0]] = true ∧
+    oneTag [[some 0], [some 2]] = false ∧ allCommon [[some 0], [some 2]] = false := by decide
+
+/-! ### `anonymize_annotations` is idempotent -/
+
+/-- `anonymize_annotations` applied to its own output changes nothing — on a single state (ALL states, also
+ones no source produces: repeated tags, unannotated photons, modes in any order) and on a distribution (ALL
+list distributions: the keys are already canonical, so nothing is merged and the accumulation gives the
+entries back in their order; the entries are already sorted by decreasing probability, and the stable sort
+leaves them where they are).  The renamed state is canonical: every mode is sorted and the tags appear, in
+visiting order, as `_:0, _:1, …` (`annotMap_anonState`), so the second pass renames every tag to itself. -/
+theorem anonymize_idempotent (s : State) (d : Dist State) :
+    anonState (anonState s) = anonState s ∧ anonDist (anonDist d) = anonDist d :=
+  ⟨anonState_idem s, anonDist_idem_of anonState_idem d⟩
+
+/-- On the source: simplifying the simplified mixture of a partially distinguishable source once more gives
+the same list of (state, probability) entries, in the same order (every threshold). -/
+theorem simplify_idempotent (P : Params) (θ : ℚ) (ns : List ℕ) (t : ℕ) (hpd : partDist P = true) :
+    anonDist (generateSAt P true θ ns t) = generateSAt P true θ ns t := by
+  unfold generateSAt
+  rw [hpd]
+  exact anonDist_idem_of anonState_idem _
+
+-- hypothesis of `simplify_idempotent`: a partially distinguishable source exists (see `partDist` above); it
+-- is needed: the unannotated mixture of a source that is not partially distinguishable is left alone by the
+-- flag, but `anonymize_annotations` itself would rename its photons
+example : partDist { beta := 1, g2 := 0, q := 1, eta := 1, ind := 1 / 4, r := 1 / 2, dm := true } = true ∧
+    anonState [[none]] ≠ [[none]] := by
+  constructor
+  · norm_num [partDist]
+  · decide
+-- the first pass does change something, the second does not
+example : anonState [[some 2], [some 0, some 2]] ≠ [[some 2], [some 0, some 2]] ∧
+    anonState (anonState [[some 2], [some 0, some 2]]) = anonState [[some 2], [some 0, some 2]] := by
+  decide
 
 /-! ### closed multinomial formula for `N` requested photons -/
 
@@ -1252,5 +1468,32 @@ example : commonTag (some 0) = true ∧ (freshTags ([[some 0, some 3]] : State).
     (freshTags ([[some 0, some 5]] : State).flatten).Nodup ∧
     (∀ tg ∈ ([[some 0, some 5]] : State).flatten, commonTag tg = true → tg = some 0) := by
   refine ⟨rfl, by decide, by decide, by decide⟩
+
+-- hypotheses of `trimmed_mass_ge_width` / `generate_close_to_exact_width` / `generate_close_to_exact_hom_only`:
+-- `exP_WF`, `exHOM_WF` (above); the width really depends on the parameters (5 outcomes for `exP`,
+-- 2 for the HOM-only source, 1 for the perfect one), and the count is smaller than the worst-case one
+example : width exP = 5 ∧ width exHOM = 2 ∧ width exPerfect = 1 := by
+  refine ⟨?_, ?_, ?_⟩ <;>
+    norm_num [width, onePhoton, onePhotonRaw, positive, partDist, exP, exHOM, exPerfect, p0, p11, p21, p22,
+      p1, p2, List.filter_cons]
+example : exHOM.beta = 1 ∧ exHOM.g2 = 0 ∧ exHOM.eta = 1 := ⟨rfl, rfl, rfl⟩
+example : lossCountW 2 [1, 1] = 10 ∧ lossCount [1, 1] = 40 ∧ lossCountW 2 [2, 1] = 28 ∧
+    lossCount [2, 1] = 220 := by decide
+
+-- hypothesis of `sampler_tag_counter_model`: an imperfect source exists, and the counter does move
+example : isPerfect exP = false ∧ nfTag exP [1, 2] 0 = 6 := by
+  constructor
+  · simp [isPerfect, exP]
+  · simp [nfTag, nfTag.genTagPd, partDist, tagAfter, nextTag, exP]
+
+-- hypothesis of `no_trimming_below_min_weight`: the HOM-only source with `r = 7/10` has `wmin = 3/10`; two
+-- requested photons at the default threshold are far above it
+example : wmin exHOM = 3 / 10 ∧ max (0 : ℚ) minP < wmin exHOM ^ ([1, 1] : List ℕ).sum := by
+  have h : wmin exHOM = 3 / 10 := by
+    norm_num [wmin, onePhoton, onePhotonRaw, positive, partDist, exHOM, p0, p11, p21, p22, p1, p2,
+      List.filter_cons]
+  refine ⟨h, ?_⟩
+  rw [h]
+  norm_num [minP]
 
 end PM.C06
